@@ -232,7 +232,18 @@ func checkC12WS(c *Ctx, sw *ScopeWS, tag string) {
 					}
 					c.Count("clause_b_checks", 1)
 					if !locIn(rd, own.URI, own.Range) {
-						c.Report(fmt.Sprintf("b:not-among-references-of-own-definition|p:%s", cls),
+						// the declaration's own position may sit in a resolver trigger class
+						dcls := "unknown"
+						if df := sw.ByRel[ws.Rel(d0.URI)]; df != nil && df.Parse.Valid() {
+							if off, ok := (&RText{B: df.Src}).Offset(d0.Range.Start); ok {
+								for _, tt := range df.Parse.Lex.Toks {
+									if tt.Off == off && tt.K == TName {
+										dcls = c12Class(nameClass(df, tt), df.Bind.ByOff[tt.Off] != nil)
+									}
+								}
+							}
+						}
+						c.Report(fmt.Sprintf("b:not-among-references-of-own-definition|p:%s|def:%s", cls, dcls),
 							fmt.Sprintf("%s at %s:%v has definition %s but is not among that declaration's references %s", t.Val, f.Rel, p, fmtLocs(ws, dp),
 								truncate(fmtLocs(ws, rd), 300)), witness(map[string]interface{}{"refs_of_definition": fmtLocs(ws, rd)}))
 					}
